@@ -15,7 +15,7 @@ use ironbeam::validation::{
     ErrorCollector, Validate, ValidationError, ValidationMode, ValidationResult,
     combine_validations,
 };
-use ironbeam::{Pipeline, from_vec};
+use ironbeam::{PCollection, Pipeline, from_vec};
 use serde_json::{Value, json};
 use std::panic::{AssertUnwindSafe, catch_unwind};
 use std::sync::{Arc, Mutex};
@@ -316,6 +316,190 @@ fn pattern_rows(keyed: bool, len: i64, bits: i64) -> Value {
     Value::Array(rows)
 }
 
+// ------------------------------------------------------------------ tree kind
+/// a handle of either static type
+#[derive(Clone)]
+enum H {
+    U(PCollection<Rec>),
+    K(PCollection<(i64, Rec)>),
+}
+
+const N_COLL: usize = 3;
+
+/// one builder call on the handle `h` (mirrored by `dec_tstep` in Corr/C17.v):
+///   [0,c] map / map_values (+c) | [1,m,r] filter / filter_values (v mod m != r)
+///   [2,mode,cid] validate_with_mode / validate_values_with_mode (cid = -1: no collector)
+///   [3] validate_skip_invalid / validate_values_skip_invalid | [4] validate_fail_fast (unkeyed)
+///   [5,m] key_by(v mod m) (unkeyed -> keyed) | [6] map(|kv| kv.1) (keyed -> unkeyed)
+///   [7,n,c] map_values_batches(n, +c) (keyed)
+/// The validation builders take `&self` (the parent handle stays usable), the others consume a
+/// clone of the handle.
+fn tree_step(h: &H, s: &[i64], colls: &[Arc<Mutex<ErrorCollector>>]) -> Option<H> {
+    let coll = |cid: i64| -> Option<Option<Arc<Mutex<ErrorCollector>>>> {
+        if cid == -1 {
+            Some(None)
+        } else if cid >= 0 && (cid as usize) < colls.len() {
+            Some(Some(Arc::clone(&colls[cid as usize])))
+        } else {
+            None
+        }
+    };
+    Some(match (h, s) {
+        (H::U(c), [0, k]) => {
+            let k = *k;
+            H::U(c.clone().map(move |r: &Rec| Rec(r.0 + k)))
+        }
+        (H::K(c), [0, k]) => {
+            let k = *k;
+            H::K(c.clone().map_values(move |r: &Rec| Rec(r.0 + k)))
+        }
+        (H::U(c), [1, m, r]) if *m > 0 => {
+            let (m, r) = (*m, *r);
+            H::U(c.clone().filter(move |x: &Rec| x.0.rem_euclid(m) != r))
+        }
+        (H::K(c), [1, m, r]) if *m > 0 => {
+            let (m, r) = (*m, *r);
+            H::K(c.clone().filter_values(move |x: &Rec| x.0.rem_euclid(m) != r))
+        }
+        (H::U(c), [2, md, cid]) => H::U(c.validate_with_mode(mode_of(*md)?, coll(*cid)?)),
+        (H::K(c), [2, md, cid]) => H::K(c.validate_values_with_mode(mode_of(*md)?, coll(*cid)?)),
+        (H::U(c), [3]) => H::U(c.validate_skip_invalid()),
+        (H::K(c), [3]) => H::K(c.validate_values_skip_invalid()),
+        (H::U(c), [4]) => H::U(c.validate_fail_fast()),
+        (H::U(c), [5, m]) if *m > 0 => {
+            let m = *m;
+            H::K(c.clone().key_by(move |r: &Rec| r.0.rem_euclid(m)))
+        }
+        (H::K(c), [6]) => H::U(c.clone().map(|kv: &(i64, Rec)| kv.1.clone())),
+        (H::K(c), [7, n, k]) if *n >= 0 => {
+            let k = *k;
+            H::K(c.clone().map_values_batches(*n as usize, move |vs: &[Rec]| {
+                vs.iter().map(|r| Rec(r.0 + k)).collect()
+            }))
+        }
+        _ => return None,
+    })
+}
+
+/// "tree" kind: in = [keyed source, threads, rows, script]; rows = explicit list or
+/// ["r", n, m, t] (record i = big_value(m, t, i), key i mod 7); script op =
+/// [0, parent handle, step] (a builder call; handle 0 = the source, handle i = the i-th call) |
+/// [1, handle, exec, partitions] (collect_seq / collect_par on a clone of the handle).
+/// out = one observation per COLLECT: ["ok", rows, colls] | ["panic", colls] | ["err", colls],
+/// colls = [[entries, error_count] per collector], read back after every collect.
+fn run_tree(input: &Value) -> Value {
+    let (Some(keyed0), Some(th), Some(jrows), Some(script)) = (
+        input.get(0).and_then(Value::as_i64),
+        input.get(1).and_then(Value::as_i64),
+        input.get(2).and_then(Value::as_array),
+        input.get(3).and_then(Value::as_array),
+    ) else {
+        return json!(["invalid"]);
+    };
+    if input.as_array().map(Vec::len) != Some(4) || !(0..=1).contains(&keyed0) {
+        return json!(["invalid"]);
+    }
+    // rows
+    let mut vals: Vec<(i64, i64)> = Vec::new();
+    if jrows.first().and_then(Value::as_str) == Some("r") {
+        let g = |i: usize| jrows.get(i).and_then(Value::as_i64);
+        let (Some(n), Some(m), Some(t)) = (g(1), g(2), g(3)) else { return json!(["invalid"]) };
+        if jrows.len() != 4 || !(0..=100_000).contains(&n) || m < 1 || t < 0 {
+            return json!(["invalid"]);
+        }
+        vals.extend((0..n).map(|i| (i % 7, big_value(m, t, i))));
+    } else {
+        for r in jrows {
+            if keyed0 == 1 {
+                match (r.get(0).and_then(Value::as_i64), r.get(1).and_then(Value::as_i64)) {
+                    (Some(k), Some(v)) if r.as_array().is_some_and(|a| a.len() == 2) => {
+                        vals.push((k, v));
+                    }
+                    _ => return json!(["invalid"]),
+                }
+            } else {
+                match r.as_i64() {
+                    Some(v) => vals.push((0, v)),
+                    None => return json!(["invalid"]),
+                }
+            }
+        }
+    }
+    let colls: Vec<Arc<Mutex<ErrorCollector>>> =
+        (0..N_COLL).map(|_| Arc::new(Mutex::new(ErrorCollector::new()))).collect();
+    let dump = |colls: &[Arc<Mutex<ErrorCollector>>]| -> Value {
+        Value::Array(
+            colls
+                .iter()
+                .map(|c| {
+                    let (entries, count) = collector_json(c);
+                    json!([entries, count])
+                })
+                .collect(),
+        )
+    };
+    let p = Pipeline::default();
+    let mut handles: Vec<H> = vec![if keyed0 == 1 {
+        H::K(from_vec(&p, vals.iter().map(|kv| (kv.0, Rec(kv.1))).collect::<Vec<_>>()))
+    } else {
+        H::U(from_vec(&p, vals.iter().map(|kv| Rec(kv.1)).collect::<Vec<_>>()))
+    }];
+    let mut out = Vec::new();
+    for op in script {
+        let Some(a) = op.as_array() else { return json!(["invalid"]) };
+        match a.first().and_then(Value::as_i64) {
+            Some(0) if a.len() == 3 => {
+                let (Some(parent), Some(step)) = (
+                    a[1].as_i64(),
+                    a[2].as_array().and_then(|s| s.iter().map(Value::as_i64).collect::<Option<Vec<i64>>>()),
+                ) else {
+                    return json!(["invalid"]);
+                };
+                if parent < 0 || parent as usize >= handles.len() {
+                    return json!(["invalid"]);
+                }
+                match tree_step(&handles[parent as usize], &step, &colls) {
+                    Some(h) => handles.push(h),
+                    None => return json!(["invalid"]),
+                }
+            }
+            Some(1) if a.len() == 4 => {
+                let (Some(h), Some(ex), Some(parts)) = (a[1].as_i64(), a[2].as_i64(), a[3].as_i64())
+                else {
+                    return json!(["invalid"]);
+                };
+                if h < 0 || h as usize >= handles.len() {
+                    return json!(["invalid"]);
+                }
+                let Some(exec) = exec_of(ex, th, parts) else { return json!(["invalid"]) };
+                let handle = handles[h as usize].clone();
+                let res: std::thread::Result<anyhow::Result<Vec<Value>>> =
+                    catch_unwind(AssertUnwindSafe(|| match (handle, &exec) {
+                        (H::U(c), Exec::Seq) => {
+                            c.collect_seq().map(|v| v.iter().map(|r| json!(r.0)).collect())
+                        }
+                        (H::U(c), Exec::Par(t, n)) => c
+                            .collect_par(Some(*t), Some(*n))
+                            .map(|v| v.iter().map(|r| json!(r.0)).collect()),
+                        (H::K(c), Exec::Seq) => {
+                            c.collect_seq().map(|v| v.iter().map(|kv| json!([kv.0, kv.1.0])).collect())
+                        }
+                        (H::K(c), Exec::Par(t, n)) => c
+                            .collect_par(Some(*t), Some(*n))
+                            .map(|v| v.iter().map(|kv| json!([kv.0, kv.1.0])).collect()),
+                    }));
+                out.push(match res {
+                    Err(_) => json!(["panic", dump(&colls)]),
+                    Ok(Err(_)) => json!(["err", dump(&colls)]),
+                    Ok(Ok(rows)) => json!(["ok", rows, dump(&colls)]),
+                });
+            }
+            _ => return json!(["invalid"]),
+        }
+    }
+    Value::Array(out)
+}
+
 fn run(kind: &str, input: &Value) -> Value {
     let int = |i: usize| input.get(i).and_then(Value::as_i64);
     let bit = |i: usize| match input.get(i) {
@@ -412,6 +596,7 @@ fn run(kind: &str, input: &Value) -> Value {
             }
             run_big(keyed, md, hc, &exec, n, m, t, k)
         }
+        "tree" => run_tree(input),
         "row" => {
             let (Some(keyed), Some(len), Some(bits), Some(maxp)) = (bit(0), int(1), int(2), int(3))
             else {
@@ -965,6 +1150,10 @@ fn generate(seed: u64, tier: Tier, em: &mut Emitter) {
         }
     }
 
+    // 4b. trees: branching (one collection feeding several validation steps) and every builder
+    // among the other element-wise builders
+    gen_trees(seed, thorough, em);
+
     // 5. seeded random
     let mut rng = SplitMix64::new(seed ^ 0xC17);
     let n_run = if thorough { 20000 } else { 1500 };
@@ -1085,6 +1274,317 @@ fn generate(seed: u64, tier: Tier, em: &mut Emitter) {
             .collect();
         let errs = parts.iter().filter(|p| !p.is_null()).count();
         em.case("combine", Value::Array(parts), len >= 2 && errs >= 1, &["random"]);
+    }
+}
+
+// ------------------------------------------------------------------ tree generation
+/// does the planner's reorder pass change the order of this lineage? Only a block made solely of
+/// reorder-safe value-only operators (map_values cost 3, filter_values cost 1, map_values_batches
+/// cost 2, i.e. steps 0/1/7 on a keyed source) is sorted; such lineages are finding C02-reorder's
+/// subject and are never collected here.
+fn lineage_reorders(keyed0: bool, lin: &[Vec<i64>]) -> bool {
+    if !keyed0 || lin.len() < 2 {
+        return false;
+    }
+    let mut keys = Vec::new();
+    for s in lin {
+        match s[0] {
+            0 => keys.push((1, 3)),
+            1 => keys.push((0, 1)),
+            7 => keys.push((1, 2)),
+            _ => return false,
+        }
+    }
+    keys.windows(2).any(|w| w[0] > w[1])
+}
+
+/// incremental construction of a "tree" script with the bookkeeping the generator needs
+struct TreeGen {
+    keyed0: bool,
+    shapes: Vec<bool>,
+    lins: Vec<Vec<Vec<i64>>>,
+    script: Vec<Value>,
+    builds: usize,
+    validated_collects: usize,
+}
+impl TreeGen {
+    fn new(keyed0: bool) -> Self {
+        TreeGen { keyed0, shapes: vec![keyed0], lins: vec![vec![]], script: vec![], builds: 0, validated_collects: 0 }
+    }
+    /// a builder call; None when the step does not exist on the parent's static type
+    fn build(&mut self, parent: usize, step: &[i64]) -> Option<usize> {
+        let keyed = *self.shapes.get(parent)?;
+        let out = match (keyed, step[0]) {
+            (false, 0..=4) => false,
+            (false, 5) => true,
+            (true, 0..=3 | 7) => true,
+            (true, 6) => false,
+            _ => return None,
+        };
+        self.shapes.push(out);
+        let mut lin = self.lins[parent].clone();
+        lin.push(step.to_vec());
+        self.lins.push(lin);
+        self.script.push(json!([0, parent, step]));
+        self.builds += 1;
+        Some(self.shapes.len() - 1)
+    }
+    /// a collect; refused (false) for lineages the planner reorders
+    fn collect(&mut self, h: usize, ex: i64, parts: i64) -> bool {
+        if h >= self.lins.len() || lineage_reorders(self.keyed0, &self.lins[h]) {
+            return false;
+        }
+        if self.lins[h].iter().any(|s| (2..=4).contains(&s[0])) {
+            self.validated_collects += 1;
+        }
+        self.script.push(json!([1, h, ex, parts]));
+        true
+    }
+    fn emit(self, em: &mut Emitter, threads: i64, rows: Value, tags: &[&str]) {
+        let nt = self.validated_collects >= 1 && self.builds >= 2;
+        em.case("tree", json!([i64::from(self.keyed0), threads, rows, self.script]), nt, tags);
+    }
+}
+
+/// rows for the small tree cases: values whose validity changes under +1 / +3 (v mod 4), one
+/// negative (invalid without errors)
+fn tree_rows(keyed: bool, n: i64) -> Value {
+    Value::Array(
+        (0..n)
+            .map(|i| {
+                let v = if i == 5 { -3 } else { 3 * i + (i * i) % 5 };
+                if keyed { json!([i % 3, v]) } else { json!(v) }
+            })
+            .collect(),
+    )
+}
+
+fn gen_trees(seed: u64, thorough: bool, em: &mut Emitter) {
+    // the validation builders: with_mode x (skip, log c0, log c1, log no collector, fail-fast,
+    // fail-fast with collector), the skip wrapper, the fail-fast wrapper (unkeyed only)
+    let builders_u: Vec<Vec<i64>> = vec![
+        vec![2, 0, -1], vec![2, 1, 0], vec![2, 1, 1], vec![2, 1, -1], vec![2, 2, -1], vec![2, 2, 0],
+        vec![3], vec![4],
+    ];
+    let builders_k: Vec<Vec<i64>> = builders_u[..7].to_vec();
+
+    // T1. siblings: ONE parent feeding two validation steps; the parent is the source or a
+    // stateless step behind it; collected after / before / between the builder calls
+    for keyed0 in [false, true] {
+        let prefixes: Vec<Vec<Vec<i64>>> = if keyed0 {
+            vec![vec![], vec![vec![0, 2]], vec![vec![1, 4, 3], vec![0, 1]], vec![vec![7, 2, 1]], vec![vec![6]]]
+        } else {
+            vec![vec![], vec![vec![0, 1]], vec![vec![0, 2], vec![1, 3, 1]], vec![vec![5, 3]]]
+        };
+        for (pi, prefix) in prefixes.iter().enumerate() {
+            // static type of the parent
+            let parent_keyed = prefix.iter().fold(keyed0, |k, s| match s[0] { 5 => true, 6 => false, _ => k });
+            let bs = if parent_keyed { &builders_k } else { &builders_u };
+            for (i, a) in bs.iter().enumerate() {
+                for (j, b) in bs.iter().enumerate() {
+                    for variant in 0..2 {
+                        let par = (i + j + variant + pi) % 2 == 1;
+                        let (ex, parts) = if par { (1, 3) } else { (0, 0) };
+                        let mut t = TreeGen::new(keyed0);
+                        let mut parent = 0;
+                        for s in prefix {
+                            parent = t.build(parent, s).unwrap();
+                        }
+                        if variant == 0 {
+                            // build both, collect both, the parent, the first one again
+                            let ha = t.build(parent, a).unwrap();
+                            let hb = t.build(parent, b).unwrap();
+                            t.collect(ha, ex, parts);
+                            t.collect(hb, ex, parts);
+                            t.collect(parent, ex, parts);
+                            t.collect(ha, 1 - ex, 2);
+                        } else {
+                            // the parent first, then each child as soon as it is built
+                            t.collect(parent, ex, parts);
+                            let ha = t.build(parent, a).unwrap();
+                            t.collect(ha, ex, parts);
+                            let hb = t.build(parent, b).unwrap();
+                            t.collect(hb, ex, parts);
+                            t.collect(ha, ex, parts);
+                            t.collect(parent, 1 - ex, 4);
+                        }
+                        t.emit(em, 2, tree_rows(keyed0, 9), &["tree", "siblings"]);
+                    }
+                }
+            }
+        }
+    }
+
+    // T2. fan-out and depth: f validation children on one stateless parent (f = 2..17, 32, 64),
+    // and a parent behind d map steps (d = 1..20, 32, 64)
+    let mut fans: Vec<usize> = (2..=17).collect();
+    fans.extend([32, 64]);
+    for keyed0 in [false, true] {
+        let bs = if keyed0 { &builders_k } else { &builders_u };
+        for &f in &fans {
+            let mut t = TreeGen::new(keyed0);
+            let parent = t.build(0, &[0, 1]).unwrap();
+            let kids: Vec<usize> = (0..f).map(|i| t.build(parent, &bs[(i * 3 + 1) % bs.len()]).unwrap()).collect();
+            for &h in [kids[0], kids[f / 2], kids[f - 1]].iter() {
+                t.collect(h, (f % 2) as i64, 3);
+            }
+            t.collect(parent, 0, 0);
+            t.emit(em, 2, tree_rows(keyed0, 10), &["tree", "fan-out"]);
+        }
+        let mut depths: Vec<usize> = (1..=20).collect();
+        depths.extend([32, 64]);
+        for &d in &depths {
+            let mut t = TreeGen::new(keyed0);
+            let mut parent = 0;
+            for i in 0..d {
+                // +1 and +3 alternate: the validity of a record keeps changing along the chain
+                parent = t.build(parent, &[0, if i % 2 == 0 { 1 } else { 3 }]).unwrap();
+            }
+            let a = t.build(parent, &[2, 1, 0]).unwrap();
+            let b = t.build(parent, &[3]).unwrap();
+            let c = t.build(parent, &[2, 1, 1]).unwrap();
+            t.collect(a, (d % 2) as i64, 4);
+            t.collect(b, 1 - (d % 2) as i64, 4);
+            t.collect(c, 0, 0);
+            t.collect(parent, 0, 0);
+            t.emit(em, 2, tree_rows(keyed0, 10), &["tree", "depth"]);
+        }
+    }
+
+    // T3. chains: every sequence of <= 3 steps that contains a validation builder, over 9 step
+    // shapes per static type (the wrappers and the general entry points after / between / before
+    // map, filter, map_values, filter_values, map_values_batches); the last handle is collected,
+    // then the first one (whose lineage is a prefix of the last one's)
+    for keyed0 in [false, true] {
+        let alpha: Vec<Vec<i64>> = if keyed0 {
+            vec![vec![0, 1], vec![0, 3], vec![1, 2, 0], vec![1, 3, 1], vec![7, 2, 2],
+                 vec![3], vec![2, 0, -1], vec![2, 1, 0], vec![2, 2, -1]]
+        } else {
+            vec![vec![0, 1], vec![0, 3], vec![1, 2, 0], vec![1, 3, 1],
+                 vec![3], vec![4], vec![2, 0, -1], vec![2, 1, 0], vec![2, 2, 0]]
+        };
+        let maxd = if thorough { 4 } else { 3 };
+        let mut seqs: Vec<Vec<Vec<i64>>> = vec![vec![]];
+        for depth in 1..=maxd {
+            let mut next = Vec::new();
+            for s in &seqs {
+                for a in &alpha {
+                    let mut t = s.clone();
+                    t.push(a.clone());
+                    next.push(t);
+                }
+            }
+            seqs = next;
+            for (idx, s) in seqs.iter().enumerate() {
+                if !s.iter().any(|x| (2..=4).contains(&x[0])) {
+                    continue;
+                }
+                let execs: &[(i64, i64)] = if depth < 3 { &[(0, 0), (1, 3)] } else if idx % 2 == 0 { &[(0, 0)] } else { &[(1, 3)] };
+                for &(ex, parts) in execs {
+                    let mut t = TreeGen::new(keyed0);
+                    let mut h = 0;
+                    let mut first = 0;
+                    for (i, st) in s.iter().enumerate() {
+                        h = t.build(h, st).unwrap();
+                        if i == 0 {
+                            first = h;
+                        }
+                    }
+                    t.collect(h, ex, parts);
+                    if depth >= 2 {
+                        t.collect(first, ex, parts);
+                    }
+                    t.emit(em, 2, tree_rows(keyed0, 11), &["tree", "chain"]);
+                }
+            }
+        }
+    }
+
+    // T4. sizes: two log-mode siblings, the skip wrapper and a fail-fast sibling on a stateless
+    // parent, n records (every power of two and its neighbours), 1..16 partitions
+    let mut sizes: Vec<i64> = Vec::new();
+    for p in [16i64, 32, 64, 128, 256, 512, 1024] {
+        sizes.extend([p - 1, p, p + 1]);
+    }
+    sizes.push(20);
+    if thorough {
+        sizes.extend([2047, 2048, 4096, 4097]);
+    }
+    for (i, &n) in sizes.iter().enumerate() {
+        for keyed0 in [false, true] {
+            let mut t = TreeGen::new(keyed0);
+            // +4 keeps v mod 4: the parent's records are invalid where the source's are
+            let parent = t.build(0, &[0, 4]).unwrap();
+            let a = t.build(parent, &[2, 1, 0]).unwrap();
+            let b = t.build(parent, &[2, 1, 1]).unwrap();
+            let c = t.build(parent, &[3]).unwrap();
+            let d = t.build(parent, &[2, 2, 2]).unwrap();
+            let parts = [1i64, 2, 3, 4, 7, 8, 16][i % 7];
+            t.collect(a, 1, parts);
+            t.collect(b, 0, 0);
+            t.collect(c, 1, parts + 1);
+            t.collect(d, 1, parts);
+            t.collect(a, 0, 0);
+            t.emit(em, 3, json!(["r", n, 3, 2]), &["tree", "size"]);
+        }
+    }
+
+    // T5. seeded random trees
+    let mut rng = SplitMix64::new(seed ^ 0xC17_7EE);
+    let n_tree = if thorough { 6000 } else { 500 };
+    for _ in 0..n_tree {
+        let keyed0 = rng.chance(1, 2);
+        let len = if rng.chance(1, 8) { rng.below(100) } else { rng.below(25) } as usize;
+        let rows: Vec<Value> = (0..len)
+            .map(|_| {
+                let v = rng.range(-2, 60);
+                if keyed0 { json!([rng.range(0, 3), v]) } else { json!(v) }
+            })
+            .collect();
+        let nops = rng.range(3, 10);
+        let mut t = TreeGen::new(keyed0);
+        let mut hub = 0usize;
+        for _ in 0..nops {
+            if t.builds < 2 || rng.chance(3, 5) {
+                // a builder call: on the hub (so that it gets several children), or anywhere
+                let parent = if rng.chance(1, 2) { hub } else { rng.below(t.shapes.len() as u64) as usize };
+                let keyed = t.shapes[parent];
+                let step: Vec<i64> = match rng.below(10) {
+                    0 | 1 => vec![0, rng.range(0, 5)],
+                    2 => {
+                        let m = rng.range(2, 4);
+                        vec![1, m, rng.range(0, m - 1)]
+                    }
+                    3 => {
+                        if keyed {
+                            if rng.chance(1, 2) { vec![6] } else { vec![7, rng.range(0, 4), rng.range(0, 3)] }
+                        } else {
+                            vec![5, rng.range(1, 4)]
+                        }
+                    }
+                    4 => vec![3],
+                    5 => if keyed { vec![3] } else { vec![4] },
+                    _ => {
+                        let md = if rng.chance(1, 6) { 2 } else { rng.range(0, 1) };
+                        vec![2, md, rng.range(-1, 2)]
+                    }
+                };
+                if let Some(h) = t.build(parent, &step) {
+                    if rng.chance(1, 3) {
+                        hub = h;
+                    }
+                }
+            } else {
+                let h = rng.below(t.shapes.len() as u64) as usize;
+                let ex = i64::from(rng.chance(1, 2));
+                t.collect(h, ex, rng.below(len as u64 + 3) as i64);
+            }
+        }
+        // always end with a collect of the hub and of the last handle
+        t.collect(hub, i64::from(rng.chance(1, 2)), 3);
+        let last = t.shapes.len() - 1;
+        t.collect(last, i64::from(rng.chance(1, 2)), 2);
+        t.emit(em, rng.range(1, 4), Value::Array(rows), &["tree", "random"]);
     }
 }
 
